@@ -103,6 +103,7 @@ func vStoreBegin(choices []int, fs *vos.MemFS) *vStoreEnv {
 	if fs == nil {
 		fs = vos.NewMemFS()
 	}
+	vResetGlobals()
 	vos.FS = fs
 	vtime.ResetTickers()
 	nodeIDCounter = 100
